@@ -461,6 +461,12 @@ func (e *engine) mergeDelta() (bool, error) {
 			return fmt.Errorf("merging with |target vars| != 1 not implemented: %v", fundep.Target)
 		}
 		targetColumn := fundep.Target[0]
+		if mergePred.Arity != len(mergePredMode) {
+			return fmt.Errorf("merging %v with a merge predicate of %d arguments not implemented: %v", pred, mergePred.Arity, mergePred)
+		}
+		if len(fundep.Source) > pred.Arity {
+			return fmt.Errorf("functional dependency of %v repeats a column: %v", pred, fundep.Source)
+		}
 
 		// Query existing facts whose columns agree on fundep.Source values.
 		queryArgs := make([]ast.BaseTerm, pred.Arity, pred.Arity)
